@@ -1227,6 +1227,31 @@ def G15_order_and_bucket_pitfalls(repo, clause, scope=ALL_LIB):
                           "the values land on the wrong entries" % (ast.unparse(a)[:70], fn.qualname, dname), slot="mask-vs-dict-order:%s" % fn.qualname, positive="robust"))
         # (b)
         tol_params = [p for p in fn.params if any(k in p.lower() for k in ("delta", "atol", "tol", "eps"))]
+        # (b') whatever the tolerance: a ROUNDED POSITION kept in a set / used as a dict key stands in for the identity of an atom.  Two different atoms at one place (a mixed-occupancy
+        #      site) become one, and the same place reached through two images can round to two keys
+        if fn.outer is None:
+            for c in [x for x in fn.all_nodes() if isinstance(x, ast.Call) and call_name(x) in ("round", "around", "rint") and x.args]:
+                if not any(isinstance(y, ast.Name) and "pos" in y.id.lower() for y in ast.walk(c.args[0])):
+                    continue
+                holder_nodes = None
+                for f2 in repo.all_fns():
+                    if (f2 is fn or f2.outer is fn) and any(y is c for y in f2.own_nodes()):
+                        holder_nodes = f2
+                if holder_nodes is None:
+                    continue
+                st = holder_nodes.stmt_of(c)
+                if not (isinstance(st, ast.Assign) and len(st.targets) == 1 and isinstance(st.targets[0], ast.Name)):
+                    continue
+                nm_ = st.targets[0].id
+                member = any((isinstance(y, ast.Compare) and len(y.ops) == 1 and isinstance(y.ops[0], (ast.In, ast.NotIn)) and isinstance(y.left, ast.Name) and y.left.id == nm_) or
+                             (isinstance(y, ast.Call) and call_name(y) in ("add", "setdefault", "get") and y.args and isinstance(y.args[0], ast.Name) and y.args[0].id == nm_)
+                             for y in holder_nodes.own_nodes())
+                if member:
+                    n += 1
+                    obs.append(Ob("G15", clause, holder_nodes, c, False,
+                                  "`%s = %s` in %s is used as a set member / key: a ROUNDED POSITION stands in for the identity of an atom - two different atoms at one place (mixed-occupancy "
+                                  "site, element ignored) are merged, and one place seen through two periodic images can round to two different keys" % (nm_, ast.unparse(st.value)[:40], holder_nodes.qualname),
+                                  slot="position-as-identity:%s" % holder_nodes.qualname, positive="robust"))
         if tol_params:
             for c in [x for x in fn.all_nodes() if isinstance(x, ast.Call) and call_name(x) in ("round", "around", "rint") and x.args]:
                 # does the rounded value become (part of) a dict key / set member / tuple used as key?
